@@ -167,6 +167,97 @@ def report_mismatch(chk, binary, mismatch, r, oracle, tier, oracle_failed):
                                         "around this one"), no_input=True)
 
 
+REQ_CODE = {"other_cancel": [1, 0], "shutdown_once:hup": [2, 0], "shutdown_once:term": [2, 1],
+            "shutdown_once:quit": [2, 2], "shutdown_once:int": [2, 3], "shutdown_twice": [2, 4],
+            "stop": [3, 0], "continue": [4, 0], "get_info": [5, 0]}
+
+
+def loop_case(r):
+    """a well-formed history the loop probe supports: executor events, at most one report error,
+    at most two (real) shutdown signals; no job control / info / key presses"""
+    c = dc.gen_wf(r, maxlen=40, cancel_bias=0.9, max_running=8)
+    evs, nsig, nrc = [], 0, 0
+    for e in c["events"]:
+        if e[0] in ("stop", "cont", "info", "infosig", "enter"):
+            continue
+        if e[0] == "sig":
+            nsig += 1
+            if nsig > 2:
+                continue
+        if e[0] == "rc":
+            nrc += 1
+            if nrc > 1:
+                continue
+        evs.append(e)
+    return dict(c, op="loop", kind="loop", events=evs)
+
+
+def oracle_loop(case, steps):
+    """C10 'running tests are left to finish unless the cause is a signal', on what the units of the
+    real run loop received: OtherCancel for setup-script / test failure / report error, the shutdown
+    request only for signals, nothing without an announcement"""
+    for i, (ev, st) in enumerate(zip(case["events"], steps)):
+        want = []
+        for e in st["emitted"]:
+            if e["k"] == "RunBeginCancel":
+                if e["reason"] in ("SetupScriptFailure", "TestFailure", "ReportError"):
+                    want = ["other_cancel"]
+                else:
+                    want = [f"shutdown_once:{ev[1]}"] if ev[0] == "sig" else ["?"]
+            if e["k"] == "RunBeginKill":
+                want = ["shutdown_twice"]
+        for u in st["received"]:
+            if u != want:
+                return f"step {i} ({ev}): a running unit received {u}, the announcement made calls for {want}"
+    return None
+
+
+def corr_run_loop(chk, binary, r, tier):
+    """corr:dispatcher-run — the real DispatcherContext::run loop (hook H2b), with real signals"""
+    n = 600 if tier == "thorough" else 150
+    f11 = [2, 0, 0, 0, 1, 1]
+    cfg = dict(ntests=4, sel=[0, 1, 2, 3], unsel=[], total={0: 1, 1: 1, 2: 1, 3: 1}, nscripts=1)
+    cases = [dict(op="loop", kind="loop", ntests=4, nscripts=1, initial=4, max_fail=2, cfg=cfg,
+                  events=[["ss", 0], ["sf", 0, [0, 0, 0]], ["st", 0], ["st", 1], ["st", 2], ["fin", 0, f11],
+                          ["fin", 1, f11], ["st", 3], ["sig", "term"], ["rc"], ["sig", "int"]])]
+    for sg in dc.SIGS:
+        cases.append(dict(cases[0], max_fail=None, events=[["ss", 0], ["sf", 0, [0, 0, 0]], ["st", 0], ["st", 1],
+                                                            ["sig", sg], ["st", 2], ["sig", "hup"]]))
+    while len(cases) < n:
+        cases.append(loop_case(r))
+    impl = vlib.run_impl(binary, "dispatcher", cases, shards=8)
+    model = dc.coq_eval("c10l", [dc.coq_seq_expr(c) for c in cases])
+    bro = dc.coq_eval("c10b", [
+        f"map (fun x => enc_broadcast (broadcast_of (r_resp (step_resp x)))) "
+        f"(trace (Live (init {c['initial']} {dc.coq_mf(c['max_fail'])} true)) {dc.coq_events(c['events'])})"
+        for c in cases])
+    for c, i, m, b in zip(cases, impl, model, bro):
+        chk.count("run_loop_cases")
+        if "steps" not in i or len(i["steps"]) != len(c["events"]):
+            chk.violation("broken-obligation", "corr:dispatcher-run",
+                          dict(input=c, impl=i, note="the loop probe did not process every input"), no_input=True)
+            return
+        why = oracle_loop(c, i["steps"])
+        if why:
+            chk.violation("counterexample", "oracle:c10-broadcast", dict(input=c, clause=why, impl=i["steps"]))
+            return
+        for k, (st, mo, bc) in enumerate(zip(i["steps"], m, b)):
+            chk.count("run_loop_steps")
+            for u in st["received"]:
+                for q in u:
+                    chk.count(f"unit_received={q.split(':')[0]}")
+            want = [] if bc == [0, 0] else [bc]
+            got_units = [[REQ_CODE[q] for q in u] for u in st["received"]]
+            if dc.HS[st["hs"]] != mo[1][0] or [dc.canon_emitted(e) for e in st["emitted"]] != mo[2:] \
+                    or any(u != want for u in got_units):
+                chk.violation("broken-obligation", "corr:dispatcher-run",
+                              dict(input=c, step=k, impl_step=st, model_step=mo, model_broadcast=bc,
+                                   note="the real run loop and the model disagree (emitted events, handshake or "
+                                        "the request broadcast to the running units); the broadcast oracle "
+                                        "accepted the implementation"), no_input=True)
+                return
+
+
 def run(tier, seed):
     chk = vlib.Check(PROP, tier, seed)
     gate = vlib.coq_gate(PROP, extra_targets=dc.EXTRA_TARGETS)
@@ -212,6 +303,7 @@ def run(tier, seed):
                           dict(input=small, original_input=c, clause=dc.oracle_c10(small, ssteps) or why,
                                impl=ssteps))
     report_mismatch(chk, binary, mismatch, r, dc.oracle_c10, tier, oracle_failed)
+    corr_run_loop(chk, binary, r, tier)
 
     chk.sample(dict(history=cases[0]["events"], max_fail=cases[0]["max_fail"],
                     impl_emitted=[[e["k"] + (":" + e["reason"] if "reason" in e else "") for e in s.get("emitted", [])]
@@ -220,8 +312,10 @@ def run(tier, seed):
     for c in cases[3:6]:
         chk.sample(dict(kind=c["kind"], max_fail=c["max_fail"], history=c["events"][:25]))
     chk.assumptions = [
-        "the response -> broadcast mapping (OtherCancel / Shutdown) is the one read from DispatcherContext::run; "
-        "handle_event's response is compared at every step, the broadcast itself is observed only end to end",
+        "the response -> broadcast mapping (OtherCancel / Shutdown) of DispatcherContext::run is exercised by "
+        "corr:dispatcher-run (hook H2b: the real loop, real SIGHUP/SIGTERM/SIGQUIT/SIGINT raised at the harness "
+        "process) on a few hundred well-formed histories; Stop / Continue / GetInfo broadcasts are not driven "
+        "(the loop would really stop the process / wait on real timers)",
         "units' reaction to OtherCancel (ignored while running, leaves the retry delay) belongs to the unit model "
         "(C07 / executor-timers slice); 'the run ends as soon as ...' (finding F10) is not decided here",
         "debug assertions on (the harness profile): new_setup_script / finish_setup_script debug_assert paths are "
@@ -231,7 +325,7 @@ def run(tier, seed):
         gate, "make -C coq Properties/C10.vo && coqc gen/assump_C10.v (Print Assumptions)",
         ["Coq 8.16.1 kernel + vm_compute",
          "hand-written model Model/{Result,Dispatcher}.v tied by corr:dispatcher-step (hook H2), "
-         "corr:cancel-reason-ord, corr:max-fail",
+         "corr:dispatcher-run (hook H2b), corr:cancel-reason-ord, corr:max-fail",
          "hooks H2/H3 (plain-data conversion inside nextest-runner under cfg(nextest_verif))",
          "Python generators/canonicalisers/oracle in props/dispatcher_common.py, props/C10.py",
          "harness/src/dispatcher.rs"],
